@@ -31,8 +31,8 @@
 
   Not proved (not part of this file's claims): that `Lexes` is the *unique* tokenisation Lark's contextual lexer
   produces (the relation allows any terminal of the table at each piece, not only the first one in the lexer's order
-  among those acceptable in the current LALR state), completeness of the parser w.r.t. the grammar, and that the
-  internal errors never occur with the generated tables (checked by the harness on every validation run).
+  among those acceptable in the current LALR state) and completeness of the parser w.r.t. the grammar.
+  That the internal errors never occur with the generated tables is proved in PMC/Properties/C10Total.lean.
 -/
 import PMC.Proofs.ParserSound
 import PMC.Generated.Grammar
